@@ -36,7 +36,7 @@ UNCHECKED = {'PackedLevel0::count_unchecked': [1], 'PackedLevel0::neighbor_unche
              'FlatGraph::vector_at_unchecked': [1], 'FlatGraph::distance_to_unchecked': [2], 'FlatGraph::distance_between_dense_unchecked': [1, 2],
              'FlatSearchScratch::mark_if_unvisited_unchecked': [1], 'FlatGraph::prefetch_level0_neighbor_lookahead': [1], 'PackedLevel0::record_ptr': [1]}
 CHECKED = {'FlatGraph::distance_to': 2, 'FlatGraph::vector_at': 1, 'PackedLevel0::vector_at': 1}
-N_RX = r'FlatGraph::len\((?:arg|cap|var):\w+\)|(?:var|cap):node_count'
+N_RX = r'FlatGraph::len\((?:arg|cap|var):\w+\)'   # plus variables defined once from it (idflow.BodyFlow.count_vars)
 
 # closed inventory of unsafe operations per function of the default-feature library (callee leaf names)
 INVENTORY = {
@@ -130,10 +130,10 @@ def r1(ctx, prog):
                 if any(c.callee.endswith(k) for k in list(UNCHECKED) + list(CHECKED)) or (g is not None and g.id in needed):
                     m = re.match(r'^(?:arg|cap|var):(\w+)', f.rv(c.args[0]))
                     recv.add(m.group(1) if m else f.rv(c.args[0])[:30])
-            for l in b.var_local('node_count'):
-                o = flow.render(f.of.of_local(l))
+            for v, o in f.count_vars.items():
                 m = re.match(r'^FlatGraph::len\((?:arg|cap|var):(\w+)\)$', o)
-                recv.add(m.group(1) if m else 'node_count=' + o[:30])
+                if m:
+                    recv.add(m.group(1))
         if recv:
             ctx.inst('C17.R1', _fn(r), 'guards, accessors and callees of the family refer to one graph', len(recv) == 1, 'graph receiver(s): %s' % sorted(recv), nontrivial=False)
 
@@ -178,8 +178,8 @@ def r1(ctx, prog):
             if c.callee.endswith('mark_if_unvisited_unchecked'):
                 prep = [p for p in b.calls if p.callee and p.callee.endswith('FlatSearchScratch::prepare')]
                 fin = [p for p in b.calls if p.callee and (p.callee.endswith('FlatSearchScratch::finish_query') or (p.callee.endswith('Vec::clear') and 'visited_bits' in f.rf(p.args[0])))]
-                ok = bool(prep) and any(b.dominates(p.bb, c.bb) and f.rv(p.args[1]) == 'var:node_count' for p in prep) and \
-                    all(c.bb not in b.reach([p.to]) for p in fin if p.to is not None) and len(b.var_local('node_count')) == 1
+                ok = bool(prep) and any(b.dominates(p.bb, c.bb) and f.is_n(f.rv(p.args[1])) for p in prep) and \
+                    all(c.bb not in b.reach([p.to]) for p in fin if p.to is not None)
                 ctx.inst('C17.R1', fn, 'bitset prepared for the guard\'s node count, not trimmed before the mark #%d' % _count(ctx, 'C17.R1', '%s | bitset prepared' % fn), ok,
                          'prepare(%s, _) dominates; finish_query cannot reach the mark' % ([f.rv(p.args[1]) for p in prep][:1]))
     # structural facts the typestate relies on
